@@ -72,6 +72,7 @@ def run(chk):
         e3.bounds_update_table(db, chk, cfg)
         if not e.doerror_throws:
             e.rule_r2()
+            chk.extra.setdefault("error_swallowing_functions", {})[cfg] = e.swallowers
             e.rule_r3()
         chk.extra.setdefault("DoError_throws", {})[cfg] = e.doerror_throws
         _success_flag(db, chk, cfg)
